@@ -49,6 +49,8 @@ pub enum FaultKind {
     DropReceiverAtStep,
     /// drop the control sender after `at` world steps
     DropSenderAtStep,
+    /// keep the event receiver but stop reading it after `at` world steps (a stalled consumer)
+    StallReceiverAtStep,
 }
 
 #[derive(Clone, Debug, Serialize, Deserialize, PartialEq)]
@@ -135,6 +137,7 @@ fn fault_name(k: FaultKind) -> &'static str {
         FaultKind::StopAfterDone => "stop-after-completion",
         FaultKind::DropReceiverAtStep => "drop-receiver",
         FaultKind::DropSenderAtStep => "drop-sender",
+        FaultKind::StallReceiverAtStep => "stall-receiver",
     }
 }
 
@@ -144,7 +147,7 @@ fn with_rec<R>(f: impl FnOnce(&mut SearchRecord) -> R) -> R {
 
 fn fired(kind: FaultKind, times: u8) {
     STOP_SENT.with(|s| {
-        if kind != FaultKind::DropReceiverAtStep && kind != FaultKind::DropSenderAtStep && kind != FaultKind::StopAfterDone {
+        if kind != FaultKind::DropReceiverAtStep && kind != FaultKind::DropSenderAtStep && kind != FaultKind::StopAfterDone && kind != FaultKind::StallReceiverAtStep {
             s.set(true)
         }
     });
@@ -206,6 +209,7 @@ fn run_one(case: &SearchCase, spec: &SearchSpec, artifact: Option<SearchArtifact
             let mut tx = Some(tx);
             let mut step: u64 = 0;
             let mut done = false;
+            let mut stalled = false;
             loop {
                 for f in &spec.faults {
                     if f.at != step {
@@ -230,10 +234,16 @@ fn run_one(case: &SearchCase, spec: &SearchSpec, artifact: Option<SearchArtifact
                                 fired(f.kind, 1);
                             }
                         }
+                        FaultKind::StallReceiverAtStep => {
+                            if rx.is_some() && !stalled {
+                                stalled = true;
+                                fired(f.kind, 1);
+                            }
+                        }
                         _ => {}
                     }
                 }
-                if let Some(r) = &rx {
+                if let (Some(r), false) = (&rx, stalled) {
                     loop {
                         match r.try_recv() {
                             Ok(ev) => with_rec(|rec| rec.events.push(to_ev(ev))),
@@ -255,7 +265,7 @@ fn run_one(case: &SearchCase, spec: &SearchSpec, artifact: Option<SearchArtifact
                 }
             }
             // everything else is idle or finished: collect what is still queued
-            if let Some(r) = &rx {
+            if let (Some(r), false) = (&rx, stalled) {
                 while let Ok(ev) = r.try_recv() {
                     with_rec(|rec| rec.events.push(to_ev(ev)));
                 }
@@ -573,7 +583,7 @@ fn judge(
             }
         }
         // (with the receiver dropped the reports cannot be observed)
-        let receiver_dropped = r.faults_fired.contains_key("drop-receiver");
+        let receiver_dropped = r.faults_fired.contains_key("drop-receiver") || r.faults_fired.contains_key("stall-receiver");
         if !terminal && !stopped && r.returned && !receiver_dropped {
             stats.eval("C03:report-made");
             if bests.is_empty() {
@@ -745,18 +755,29 @@ fn judge(
                 format!("search {} of '{}': a worker searched more than {} nodes after the cancellation signal", running, cur.map(|s| s.fen.as_str()).unwrap_or("?"), case.post_cancel_bound),
             ));
         }
-        Outcome::Abort { msg } => {
+        Outcome::Abort { .. } | Outcome::StepCap => {
+            let what = match outcome {
+                Outcome::Abort { msg } => msg.clone(),
+                _ => "step cap reached".to_string(),
+            };
+            // a shallow depth-limited search needs a small fraction of the caps
+            let shallow = cur.and_then(|s| s.depth).map(|d| d <= 4).unwrap_or(false);
             if stop_sent {
-                v.push(Violation::new("C04", "stop-honoured", "", format!("search {} of '{}' kept running after Stop ({})", running, cur.map(|s| s.fen.as_str()).unwrap_or("?"), msg)));
+                v.push(Violation::new(
+                    "C04",
+                    "stop-honoured",
+                    if matches!(outcome, Outcome::StepCap) { "step-cap" } else { "" },
+                    format!("search {} of '{}' kept running after Stop ({})", running, cur.map(|s| s.fen.as_str()).unwrap_or("?"), what),
+                ));
+            } else if shallow {
+                v.push(Violation::new(
+                    "C04",
+                    "depth-limited-finishes",
+                    "",
+                    format!("search {} of '{}' with depth limit {:?} did not finish by itself ({})", running, cur.map(|s| s.fen.as_str()).unwrap_or("?"), cur.and_then(|s| s.depth), what),
+                ));
             } else {
-                *harness_error = Some(format!("workload too large: {} (no Stop had been sent)", msg));
-            }
-        }
-        Outcome::StepCap => {
-            if stop_sent {
-                v.push(Violation::new("C04", "stop-honoured", "step-cap", format!("search {} of '{}' did not return within the step cap after Stop", running, cur.map(|s| s.fen.as_str()).unwrap_or("?"))));
-            } else {
-                *harness_error = Some("step cap reached without a Stop having been sent".to_string());
+                *harness_error = Some(format!("workload too large: {} (no Stop had been sent)", what));
             }
         }
         Outcome::Deadlock { msg } => {
@@ -882,7 +903,7 @@ pub fn generate(ctx: &Ctx, prop: &str, rng: &mut Rng64, thorough: bool) -> Searc
         "C03" => {
             case.dims = *rng.pick(PRESSURE_DIMS);
             let p = pick_position(ctx, rng);
-            let nhist = *rng.pick(&[0usize, 1, 1, 2, 2, 3]);
+            let nhist = if thorough { *rng.pick(&[0usize, 1, 1, 2, 2, 3, 3, 4]) } else { *rng.pick(&[0usize, 1, 1, 2, 2, 3]) };
             let mut chain: Vec<Pos> = Vec::new();
             for _ in 0..nhist {
                 let q = match rng.below(8) {
@@ -918,9 +939,9 @@ pub fn generate(ctx: &Ctx, prop: &str, rng: &mut Rng64, thorough: bool) -> Searc
             let n = chain.len();
             for (i, q) in chain.into_iter().enumerate() {
                 let last = i + 1 == n;
-                let d0 = 1 + rng.below(4) as u32;
+                let d0 = 1 + rng.below(if thorough { 5 } else { 4 }) as u32;
                 let (entry, rt, w) = entry_for(rng, Some(d0));
-                let depth = if w >= 8 { d0.min(3) } else { d0 };
+                let depth = if w >= 8 { d0.min(3) } else if w > 2 { d0.min(4) } else { d0 };
                 let mut faults = Vec::new();
                 if (!last && rng.chance(200)) || (last && rng.chance(150)) {
                     faults.push(Fault { kind: FaultKind::StopAtGlobalNode, at: 1 + rng.below(3000), times: 1 });
@@ -972,6 +993,36 @@ pub fn generate(ctx: &Ctx, prop: &str, rng: &mut Rng64, thorough: bool) -> Searc
                 (Pos::from_fen(rng.pick(corpus::NORMAL)).unwrap(), true)
             };
             let endgame_heavy = heavy && (40..47).contains(&kind);
+            // Locked positions make iterations nearly free: a few runs let dozens of them
+            // complete (deep depth limit, or no limit and a late Stop) while the caller keeps
+            // the event receiver without reading it - a stalled consumer must not stall the search.
+            if (22..40).contains(&kind) && rng.chance(250) {
+                // only the truly locked positions keep forty iterations cheap
+                let pos = Pos::from_fen(corpus::LOCKED[rng.below(2) as usize]).unwrap();
+                // (and only with a table that holds the whole reachable state space: a deep
+                // search without transpositions is exponential even here)
+                case.dims = (8, 1024);
+                let unlimited = rng.chance(400);
+                let mut faults = Vec::new();
+                if unlimited {
+                    faults.push(Fault { kind: FaultKind::StopAtGlobalNode, at: 20_000 + rng.below(40_000), times: 1 });
+                }
+                if rng.chance(650) {
+                    faults.push(Fault { kind: FaultKind::StallReceiverAtStep, at: rng.below(10), times: 1 });
+                }
+                case.searches.push(SearchSpec {
+                    fen: pos.fen(),
+                    depth: if unlimited { None } else { Some(34 + rng.below(15) as u32) },
+                    seed: rng.next(),
+                    entry: Entry::Public,
+                    rayon_threads: *rng.pick(&[1usize, 2, 2]),
+                    fresh: false,
+                    history: vec![],
+                    faults,
+                });
+                case.searches.push(SearchSpec { fen: pos.fen(), depth: Some(2), seed: rng.next(), entry: Entry::Sync { workers: Some(1) }, rayon_threads: 1, fresh: false, history: vec![], faults: vec![] });
+                return case;
+            }
             let depth = if heavy { None } else { Some(*rng.pick(&[1u32, 1, 2, 2, 3, 3, 4])) };
             // a few runs place the Stop deep inside a large iteration (hundreds of thousands
             // of nodes per worker), where only the periodic poll can honour it
@@ -1025,6 +1076,8 @@ pub fn generate(ctx: &Ctx, prop: &str, rng: &mut Rng64, thorough: bool) -> Searc
             if entry == Entry::Public {
                 if rng.chance(250) {
                     faults.push(Fault { kind: FaultKind::DropReceiverAtStep, at: rng.below(40), times: 1 });
+                } else if rng.chance(200) {
+                    faults.push(Fault { kind: FaultKind::StallReceiverAtStep, at: rng.below(40), times: 1 });
                 }
                 if depth.is_some() && rng.chance(120) {
                     faults.push(Fault { kind: FaultKind::DropSenderAtStep, at: rng.below(40), times: 1 });
@@ -1079,7 +1132,7 @@ pub fn generate(ctx: &Ctx, prop: &str, rng: &mut Rng64, thorough: bool) -> Searc
             case.dims = *rng.pick(&[(8usize, 1024usize), (8, 64)]);
             let kind = rng.below(100);
             let (pos, n) = if kind < 65 {
-                let n = *rng.pick(&[1u32, 3, 3, 5, 5]);
+                let n = if thorough { *rng.pick(&[1u32, 3, 3, 5, 5, 5, 7]) } else { *rng.pick(&[1u32, 3, 3, 5, 5]) };
                 (corpus::tb_win_in(rng, &ctx.tb, n), Some(n))
             } else if kind < 80 {
                 // not won: only soundness applies
@@ -1121,17 +1174,16 @@ pub fn generate(ctx: &Ctx, prop: &str, rng: &mut Rng64, thorough: bool) -> Searc
                 (true, true) => 4,
                 (true, false) => 5,
                 (false, true) => 5,
-                (false, false) => 7,
+                (false, false) => if thorough && rt <= 2 { 9 } else { 7 },
             };
             depth = depth.min(max_d).max(1);
-            let _ = thorough;
             case.searches.push(SearchSpec { fen: pos.fen(), depth: Some(depth), seed: rng.next(), entry, rayon_threads: rt, fresh: true, history: vec![], faults: vec![] });
         }
         "C17" => {
             case.dims = *rng.pick(&[(8usize, 64usize), (8, 1024)]);
             // a won tablebase position with >= 2 mate-preserving first moves
             let (pos, keepers) = loop {
-                let n = *rng.pick(&[3u32, 3, 5, 5, 1]);
+                let n = if thorough { *rng.pick(&[3u32, 3, 5, 5, 1, 7]) } else { *rng.pick(&[3u32, 3, 5, 5, 1]) };
                 let p = corpus::tb_win_in(rng, &ctx.tb, n);
                 let keepers: Vec<Mv> = p.legal_moves().into_iter().filter(|m| ctx.tb.move_keeps_win(&p, *m) == Some(true)).collect();
                 if keepers.len() >= 2 {
@@ -1162,9 +1214,10 @@ pub fn generate(ctx: &Ctx, prop: &str, rng: &mut Rng64, thorough: bool) -> Searc
             let mut history: Vec<String> = recorded.iter().map(|m| pos.make(*m).fen()).collect();
             let mut drawn: HashSet<String> = recorded.iter().map(|m| solve::key(&pos.make(*m))).collect();
             drawn.insert(solve::key(&pos));
-            let nmod = modified_mate_distance(ctx, &pos, 7, &drawn);
+            let maxd = if thorough { 9 } else { 7 };
+            let nmod = modified_mate_distance(ctx, &pos, maxd, &drawn);
             let depth = match nmod {
-                Some(n) => (n + rng.below(3) as u32).min(7),
+                Some(n) => (n + rng.below(3) as u32).min(maxd),
                 None => 5,
             };
             let w = *rng.pick(&[1usize, 2, 3, 4, 8]);
